@@ -486,6 +486,12 @@ class DataFrameInternal:
         )
 
     def withColumn(self, colName, col):
+        if colName in self.bound_schema.names:
+            # replace the existing column of that name, keeping its position
+            return self.select(*(
+                parse(col).alias(colName) if name == colName else parse(name)
+                for name in self.bound_schema.names
+            ))
         return self.select(parse("*"), parse(col).alias(colName))
 
     def withColumnRenamed(self, existing, new):
